@@ -24,10 +24,19 @@ try:
             # a later fix: commit touched the same lines; the kept patch is relative to meta["base_commit"]
             print("%-8s skipped: patch no longer applies to HEAD (base %s)" % (name, d.get("base_commit")))
             continue
-        r = sh("cd /verif && VERIF_REPO=%s ./check %s --tier quick --nproc %s" % (wt, d["property"], nproc))
-        nviol = r.stdout.count("VIOLATION property=")
-        print("%-8s %s exit=%d violation-classes=%d" % (name, d["property"], r.returncode, nviol), flush=True)
-        if r.returncode != 1:
+        # the checks recorded as reporting this change (the property's own check first; a change aimed at one property
+        # is sometimes owned by a sibling check - see meta["caught_by"])
+        checks = [c for c in [d["property"]] + list(d.get("caught_by") or []) if c in (d.get("caught_by") or [d["property"]])]
+        checks = list(dict.fromkeys(checks)) or [d["property"]]
+        ok = False
+        for c in checks:
+            r = sh("cd /verif && VERIF_REPO=%s ./check %s --tier quick --nproc %s" % (wt, c, nproc))
+            nviol = r.stdout.count("VIOLATION property=")
+            print("%-8s %s exit=%d violation-classes=%d" % (name, c, r.returncode, nviol), flush=True)
+            if r.returncode == 1:
+                ok = True
+                break
+        if not ok:
             bad.append(name)
 finally:
     sh("rm -rf %s" % wt)
